@@ -96,6 +96,41 @@ func more3ReaderChain(p *Program, r *Report) {
 					}
 					g := cc.Call.StaticCallee()
 					if g == nil || g.Pkg == nil || g.Pkg.Pkg.Path() != modPath+"/s3api/utils" {
+						// the wrapping callback as a method value (or a named function) of this package: the
+						// constructor is called inside it on the reader it is handed, which is this call's argument
+						for _, m := range funcValuesOf(cc.Call.Value) {
+							if m == nil || m.Pkg == nil || m.Pkg.Pkg.Path() != modPath+"/s3api/middlewares" || len(m.Blocks) == 0 {
+								continue
+							}
+							off := 0
+							if m.Signature.Recv() != nil {
+								off = 1 // the bound receiver is not among the call's arguments
+							}
+							for _, ic := range callsIn(m) {
+								ig := ic.Common().StaticCallee()
+								if ig == nil || ig.Pkg == nil || ig.Pkg.Pkg.Path() != modPath+"/s3api/utils" {
+									continue
+								}
+								for i, prm := range ig.Params {
+									if !ioReader(prm.Type()) || i >= len(ic.Common().Args) {
+										continue
+									}
+									ctors++
+									fromParam := -1
+									for _, r2 := range terminalRoots(Origins(ic.Common().Args[i], nil)) {
+										for j, mp := range m.Params {
+											if r2.Kind == "param" && r2.Val == ssa.Value(mp) {
+												fromParam = j - off
+											}
+										}
+									}
+									if fromParam < 0 || fromParam >= len(cc.Call.Args) || !chained(cc.Call.Args[fromParam], 0) {
+										ok = false
+										what = fnName(ig) + " in " + fnName(m)
+									}
+								}
+							}
+						}
 						continue
 					}
 					for i, prm := range g.Params {
